@@ -14,7 +14,7 @@ import gaddlemaps
 PROPERTY = "C17"
 LEVEL = "exploration"
 RULE = ("rotation: axis = direction (axis-aligned, integer or random unit vector) x norm "
-        "10^u, u in [-6,6]; angles in [-20,20] incl. multiples of pi/2; non-trivial = axis not "
+        "10^u, u in [-6,6], or a whole-number axis given as an integer-dtype array / list / tuple with whole-number angles; angles in [-20,20] incl. multiples of pi/2; non-trivial = axis not "
         "parallel to a coordinate axis and sin(theta) != 0. frame: point triples at scale "
         "1e-3..1e3 in classes generic (sin>=1e-3), exactly collinear (x,y,z axes, diagonals, "
         "integer directions), coincident middle point and exactly collinear triples after a "
@@ -34,8 +34,21 @@ TOL_F = 1e-9
 # ------------------------------------------------------------------ rotations
 @st.composite
 def rotation_case(draw):
-    kind = draw(st.sampled_from(["axis", "integer", "random", "random", "random"]))
+    kind = draw(st.sampled_from(["axis", "integer", "random", "random", "random", "whole"]))
     rng = np.random.default_rng(draw(gen.SEEDS))
+    if kind == "whole":
+        # whole-number axis as a user writes it: [0, 0, 1], (1, 1, 0), np.array([2, -1, 3]) - integer dtype
+        while True:
+            d = rng.integers(-5, 6, size=3)
+            if d.any():
+                break
+        if draw(st.booleans()):
+            d = np.zeros(3, int)
+            d[draw(st.integers(0, 2))] = draw(st.sampled_from([-1, 1, 2]))
+        ang = (lambda: draw(st.one_of(st.integers(-20, 20), st.floats(-20, 20, allow_nan=False))))
+        return {"kind": kind, "axis": [int(v) for v in d], "theta": ang(), "theta2": ang(),
+                "lam": draw(st.sampled_from([2, 3, 10, 0.5])),
+                "axis_repr": draw(st.sampled_from(["int-array", "int-list", "int-tuple", "float-array"]))}
     if kind == "axis":
         d = np.zeros(3)
         d[draw(st.integers(0, 2))] = draw(st.sampled_from([-1.0, 1.0]))
@@ -61,6 +74,11 @@ def rotation_case(draw):
 def check_rotation(case):
     axis = np.array(case["axis"], dtype=float)
     th, th2, lam = case["theta"], case["theta2"], case["lam"]
+    arepr = case.get("axis_repr", "float-array")
+    if arepr == "int-array":
+        axis = np.array(case["axis"], dtype=np.int64)
+    elif arepr == "int-list":
+        axis = np.array(case["axis"], dtype=np.int64)
     axis_before = axis.copy()
     R = np.asarray(lib("rotation", gaddlemaps.rotation_matrix, axis, th), dtype=float)
     if R.shape != (3, 3) or not np.all(np.isfinite(R)):
@@ -85,10 +103,11 @@ def check_rotation(case):
     Rl = np.asarray(lib("rotation", gaddlemaps.rotation_matrix, axis * lam, th), dtype=float)
     need(np.abs(Rl - R).max(), "rotation-scale-free", "R(lam*axis) != R(axis)")
     # list input is documented ("list or numpy.ndarray")
-    Rlist = np.asarray(lib("rotation", gaddlemaps.rotation_matrix, list(case["axis"]), th), dtype=float)
+    as_list = list(case["axis"]) if arepr != "int-tuple" else tuple(case["axis"])
+    Rlist = np.asarray(lib("rotation", gaddlemaps.rotation_matrix, as_list, th), dtype=float)
     need(np.abs(Rlist - R).max(), "rotation-list-input", "list axis gives another matrix")
     nt = case["kind"] != "axis" and abs(math.sin(th)) > 1e-6
-    return {"nontrivial": nt, "classes": ["axis:" + case["kind"]]}
+    return {"nontrivial": nt, "classes": ["axis:" + case["kind"], "axis-repr:" + arepr]}
 
 
 # ------------------------------------------------------------------ frames
